@@ -395,6 +395,15 @@ class MockIncludeDirective:
         # this ensures that the parent file is rebuilt if the included file changes
         self.document.settings.record_dependencies.add(str(path))
 
+        # refuse circular inclusion (a file that, directly or not, includes itself)
+        include_stack: list[str] = self.renderer.__dict__.setdefault(
+            "_include_stack", [os.path.abspath(self.document["source"])]
+        )
+        if os.path.abspath(path) in include_stack:
+            raise DirectiveError(
+                4, f'Directive "{self.name}": circular inclusion of {str(path)!r}'
+            )
+
         # read file
         encoding = self.options.get("encoding", self.document.settings.input_encoding)
         error_handler = self.document.settings.input_encoding_error_handler
@@ -495,6 +504,7 @@ class MockIncludeDirective:
         rsource = self.renderer.reporter.source
         line_func = getattr(self.renderer.reporter, "get_source_and_line", None)
         try:
+            include_stack.append(os.path.abspath(path))
             self.renderer.document["source"] = str(path)
             self.renderer.reporter.source = str(path)
             self.renderer.reporter.get_source_and_line = lambda li: (str(path), li)
@@ -514,6 +524,7 @@ class MockIncludeDirective:
                 heading_offset=self.options.get("heading-offset", 0),
             )
         finally:
+            include_stack.pop()
             self.renderer.document["source"] = source
             self.renderer.reporter.source = rsource
             self.renderer.md_env.pop("relative-images", None)
